@@ -33,8 +33,8 @@ func (logger *Logger) Write(p []byte) (n int, err error) {
 
 // Printf print to multiple outputs.
 func (logger *Logger) Printf(format string, a ...interface{}) (err error) {
-	formatted := logger.format(format)
-	return logger.out.Printf(formatted)
+	formatted := logger.format(fmt.Sprintf(format, a...))
+	return logger.out.Printf("%s", formatted)
 }
 
 func (logger *Logger) format(s string) (result string) {
